@@ -7,7 +7,8 @@ VERUS_TRUST = "Trusted: Verus/Z3/rustc; vstd's specifications of Vec, slices, st
 
 PROPS = {
     "C01": {
-        "units": ["dewey"],
+        "units": ["dewey", "pattern", "pkgname"],
+        "always_devs": [],
         "design_ref": "DESIGN.md section 8 / C01",
         "replay": "dewey",
         "level_text": "Unbounded proof on the real functions: DeweyVersion::new (loop invariant over a ghost character index, "
